@@ -26,6 +26,13 @@ ASSUMPTIONS = ['TeX-/mathtext-hostile free text in geoloc / ref_metar is outside
                'only the base style (latex / metsymb need a system LaTeX)',
                'crashes of run() are left to C08 (case skipped)']
 BUDGET = {'quick': 260, 'thorough': 6000}
+CORPUS = 'pipeline'
+
+
+def from_corpus(case):
+    plots = [{'upto': u, 'show_ceilos': True, 'ref_metar': 'FEW010', 'ref_metar_origin': None,
+              'save': {'stem': 'c', 'fmts': 'png'} if u == 'layers' else None} for u in UPTO]
+    return dict(case, plots=plots, geoloc='corpus', ref_dt=None)
 UPTO = ['raw_data', 'slices', 'groups', 'layers']
 _WARM = []
 
